@@ -48,6 +48,20 @@ func (r registrySpec) line(l *Line) {
 	}
 }
 
+// buildHooked is build with a hook installed in every scripted dispatcher.
+func (r registrySpec) buildHooked(log *dispatchLog, hook func(string)) (*varlink.Service, error) {
+	svc, err := varlink.NewService(r.vendor, r.product, r.version, r.url)
+	if err != nil {
+		return nil, err
+	}
+	for _, i := range r.ifaces {
+		if err := svc.RegisterInterface(&scriptedIface{name: i.name, desc: i.desc, log: log, hook: hook}); err != nil {
+			return nil, err
+		}
+	}
+	return svc, nil
+}
+
 func (r registrySpec) build(log *dispatchLog) (*varlink.Service, error) {
 	svc, err := varlink.NewService(r.vendor, r.product, r.version, r.url)
 	if err != nil {
